@@ -143,16 +143,21 @@ pub fn check_retained(
       }
     }
   }
+  // C11: nothing covers a punctured input; every other input is still covered — by at least one
+  // retained node (an implementation may keep a non-minimal or overlapping cover, e.g. leaf values
+  // it has cached for live inputs: that retains nothing about punctured ones)
   for x in 0..256usize {
-    let want = if p.contains(&(x as u8)) { 0 } else { 1 };
-    if cover_count[x] != want {
+    let dead = p.contains(&(x as u8));
+    if (dead && cover_count[x] != 0) || (!dead && cover_count[x] == 0) {
+      let want = if dead { 0 } else { 1 };
       rep.violation(
         "C11",
         "GGM retained nodes",
         &format!("{ctx}:cover"),
         format!(
-          "input {x} is covered by {} retained nodes, expected {want}",
-          cover_count[x]
+          "input {x} is covered by {} retained nodes, expected {}{want}",
+          cover_count[x],
+          if dead { "" } else { "at least " }
         ),
         json!({"history": hist, "x": x}),
       );
